@@ -422,7 +422,7 @@ pub fn run_case(line: &str) -> String {
     out.join(" ")
 }
 
-/// `<kind> <pph-asn> <as2> <attrs> <nann> <nwd>`: kind rm | stats | pd | pu | init | term
+/// `<kind> <pph-asn> <as2> <attrs> <nann> <nwd>`: kind rm | stats | pd | pu | init | term | mirror
 pub fn bmp_bytes(op: &[&str]) -> Bytes {
     use rotonda::bgp::encode as enc;
     let asn: u32 = op[1].parse().unwrap_or(0);
@@ -438,6 +438,7 @@ pub fn bmp_bytes(op: &[&str]) -> Bytes {
         "init" => enc::mk_initiation_msg("r", "d"),
         "term" => enc::mk_termination_msg(),
         "stats" => enc::mk_statistics_report_msg(&pph),
+        "mirror" => crate::engines::c10bmp::route_mirroring_bytes(&pph),
         "pd" => enc::mk_peer_down_notification_msg(&pph),
         "pu" => enc::mk_peer_up_notification_msg(&pph, "10.0.0.1".parse().unwrap(), 11019, 4567, 111, 222, 0, 0, vec![], false),
         "rm" => {
